@@ -1,6 +1,6 @@
 /-
   Lemmas/IroVesting — `IROVestingPlan.VestedAmt` with the SDK's exact roundings: bounded by the
-  amount, monotone in time, and ahead of the linear schedule by at most `amount / (2·10^18)`.
+  amount, monotone in time, and never ahead of the linear schedule (the ratio is truncated).
 -/
 import DymVerif.Lemmas.IroArith
 import Mathlib.Tactic.Linarith
@@ -36,62 +36,44 @@ theorem chopRound_le_half (d : Int) (h : 0 ≤ d) : 2 * decP * chopRound d ≤ 2
   repeat' split
   all_goals omega
 
-/-- the raw vesting ratio `NewDec(x).Quo(NewDec(y))` -/
-def ratio (x y : Int) : Int := ((Dec.ofInt x).quo (Dec.ofInt y)).raw
+/-- the raw vesting ratio `NewDec(x).QuoTruncate(NewDec(y))` -/
+def ratio (x y : Int) : Int := ((Dec.ofInt x).quoTruncate (Dec.ofInt y)).raw
 
-theorem ratio_eq (x y : Int) : ratio x y = chopRound ((x * decP * decP * decP).tdiv (y * decP)) := by
-  simp [ratio, Dec.quo, Dec.ofInt]
+theorem ratio_eq (x y : Int) : ratio x y = (x * decP * decP).tdiv (y * decP) := by
+  simp [ratio, Dec.quoTruncate, Dec.ofInt]
 
-/-- the 36-digit intermediate quotient is the floor of `x·10^36 / y` -/
-theorem quo36 (x y : Int) (hx : 0 ≤ x) (hy : 0 < y) :
-    0 ≤ (x * decP * decP * decP).tdiv (y * decP) ∧
-    y * (x * decP * decP * decP).tdiv (y * decP) ≤ x * decP * decP := by
+/-- the truncated ratio is the floor of `x·10^18 / y` -/
+theorem ratio_floor (x y : Int) (hx : 0 ≤ x) (hy : 0 < y) :
+    0 ≤ ratio x y ∧ y * ratio x y ≤ x * decP := by
+  rw [ratio_eq]
   have hd := decP_pos
-  have hn : 0 ≤ x * decP * decP * decP := by positivity
+  have hn : 0 ≤ x * decP * decP := by positivity
   have hyd : 0 < y * decP := by positivity
   rw [Int.tdiv_eq_ediv_of_nonneg hn]
   constructor
   · exact Int.ediv_nonneg hn (by omega)
-  · have h1 := Int.ediv_mul_le (x * decP * decP * decP) (Int.ne_of_gt hyd)
-    -- q * (y*decP) ≤ x*decP^3  ⇒  y*q ≤ x*decP^2
-    have h2 : decP * (y * ((x * decP * decP * decP) / (y * decP))) ≤ decP * (x * decP * decP) := by nlinarith
+  · have h1 := Int.ediv_mul_le (x * decP * decP) (Int.ne_of_gt hyd)
+    have h2 : decP * (y * ((x * decP * decP) / (y * decP))) ≤ decP * (x * decP) := by nlinarith
     exact Int.le_of_mul_le_mul_left h2 hd
 
-theorem quo36_mono (x x' y : Int) (hx : 0 ≤ x) (hxx : x ≤ x') (hy : 0 < y) :
-    (x * decP * decP * decP).tdiv (y * decP) ≤ (x' * decP * decP * decP).tdiv (y * decP) := by
-  have hd := decP_pos
-  have hn : 0 ≤ x * decP * decP * decP := by positivity
-  have hx' : 0 ≤ x' := by omega
-  have hn' : 0 ≤ x' * decP * decP * decP := by positivity
-  have hyd : 0 < y * decP := by positivity
-  rw [Int.tdiv_eq_ediv_of_nonneg hn, Int.tdiv_eq_ediv_of_nonneg hn']
-  apply Int.ediv_le_ediv hyd
-  nlinarith [Int.mul_nonneg (Int.mul_nonneg (Int.le_of_lt hd) (Int.le_of_lt hd)) (Int.le_of_lt hd)]
-
-theorem ratio_nonneg (x y : Int) (hx : 0 ≤ x) (hy : 0 < y) : 0 ≤ ratio x y := by
-  rw [ratio_eq]; exact chopRound_nonneg _ (quo36 x y hx hy).1
+theorem ratio_nonneg (x y : Int) (hx : 0 ≤ x) (hy : 0 < y) : 0 ≤ ratio x y := (ratio_floor x y hx hy).1
 
 theorem ratio_mono (x x' y : Int) (hx : 0 ≤ x) (hxx : x ≤ x') (hy : 0 < y) : ratio x y ≤ ratio x' y := by
   rw [ratio_eq, ratio_eq]
-  exact chopRound_mono _ _ (quo36 x y hx hy).1 (quo36_mono x x' y hx hxx hy)
+  have hd := decP_pos
+  have hn : 0 ≤ x * decP * decP := by positivity
+  have hx' : 0 ≤ x' := by omega
+  have hn' : 0 ≤ x' * decP * decP := by positivity
+  have hyd : 0 < y * decP := by positivity
+  rw [Int.tdiv_eq_ediv_of_nonneg hn, Int.tdiv_eq_ediv_of_nonneg hn']
+  apply Int.ediv_le_ediv hyd
+  nlinarith [Int.mul_nonneg (Int.le_of_lt hd) (Int.le_of_lt hd)]
 
 theorem ratio_le_one (x y : Int) (hx : 0 ≤ x) (hxy : x ≤ y) (hy : 0 < y) : ratio x y ≤ decP := by
-  rw [ratio_eq]
+  obtain ⟨_, h1⟩ := ratio_floor x y hx hy
   have hd := decP_pos
-  obtain ⟨h0, h1⟩ := quo36 x y hx hy
-  have hq : (x * decP * decP * decP).tdiv (y * decP) ≤ decP * decP := by
-    have : y * (x * decP * decP * decP).tdiv (y * decP) ≤ y * (decP * decP) := by nlinarith
-    exact Int.le_of_mul_le_mul_left this hy
-  have := chopRound_mono _ _ h0 hq
-  rwa [chopRound_mul_decP] at this
-
-/-- the rounded ratio is at most half a unit (10^-18/2) above x/y: `2·10^18·y·ratio ≤ 2·10^36·x + 10^18·y` -/
-theorem ratio_le_half (x y : Int) (hx : 0 ≤ x) (hy : 0 < y) :
-    2 * decP * (y * ratio x y) ≤ 2 * (x * decP * decP) + decP * y := by
-  rw [ratio_eq]
-  obtain ⟨h0, h1⟩ := quo36 x y hx hy
-  have := chopRound_le_half _ h0
-  nlinarith
+  have : y * ratio x y ≤ y * decP := by nlinarith
+  exact Int.le_of_mul_le_mul_left this hy
 
 theorem vestedTotal_eq (v : Vest) (now : Int) :
     vestedTotal v now = (ratio (now - v.start) (v.stop - v.start) * v.amount).tdiv decP := by
@@ -121,14 +103,13 @@ theorem vestedTotal_mono (v : Vest) (now now' : Int) (ha : 0 ≤ v.amount) (h1 :
   rw [Int.tdiv_eq_ediv_of_nonneg hn, Int.tdiv_eq_ediv_of_nonneg hn']
   exact Int.ediv_le_ediv hd (Int.mul_le_mul_of_nonneg_right hm ha)
 
-/-- **exact tolerance of the linear schedule**: with x = now − start, y = stop − start,
-    `vested ≤ amount·x/y + amount/(2·10^18)`, rational-free -/
+/-- **never ahead of the linear schedule**, exactly: with x = now − start, y = stop − start,
+    `y · vested ≤ amount · x` -/
 theorem vestedTotal_linear (v : Vest) (now : Int) (ha : 0 ≤ v.amount) (h1 : v.start ≤ now) (hy : v.start < v.stop) :
-    2 * decP * ((v.stop - v.start) * vestedTotal v now) ≤ v.amount * (2 * decP * (now - v.start) + (v.stop - v.start)) := by
+    (v.stop - v.start) * vestedTotal v now ≤ v.amount * (now - v.start) := by
   rw [vestedTotal_eq]
   have hd := decP_pos
-  have hr0 := ratio_nonneg (now - v.start) (v.stop - v.start) (by omega) (by omega)
-  have hh := ratio_le_half (now - v.start) (v.stop - v.start) (by omega) (by omega)
+  obtain ⟨hr0, hfl⟩ := ratio_floor (now - v.start) (v.stop - v.start) (by omega) (by omega)
   have hn : 0 ≤ ratio (now - v.start) (v.stop - v.start) * v.amount := Int.mul_nonneg hr0 ha
   obtain ⟨b1, _⟩ := tdiv_decP_of_nonneg _ hn
   have hy0 : 0 < v.stop - v.start := by omega
@@ -136,13 +117,10 @@ theorem vestedTotal_linear (v : Vest) (now : Int) (ha : 0 ≤ v.amount) (h1 : v.
   generalize (r * v.amount).tdiv decP = w at *
   generalize v.stop - v.start = y at *
   generalize now - v.start = x at *
-  -- decP*w ≤ r*A ;  2 decP y r ≤ 2 x decP² + decP y
-  have e1 : 2 * decP * (y * (decP * w)) ≤ 2 * decP * (y * (r * v.amount)) := by
-    have := Int.mul_le_mul_of_nonneg_left b1 (Int.le_of_lt hy0)
-    nlinarith
-  have e2 : 2 * decP * (y * r) * v.amount ≤ (2 * (x * decP * decP) + decP * y) * v.amount :=
-    Int.mul_le_mul_of_nonneg_right hh ha
-  have e3 : decP * (2 * decP * (y * w)) ≤ decP * (v.amount * (2 * decP * x + y)) := by nlinarith
+  -- decP*w ≤ r*A ;  y*r ≤ x*decP
+  have e1 : y * (decP * w) ≤ y * (r * v.amount) := Int.mul_le_mul_of_nonneg_left b1 (Int.le_of_lt hy0)
+  have e2 : y * r * v.amount ≤ x * decP * v.amount := Int.mul_le_mul_of_nonneg_right hfl ha
+  have e3 : decP * (y * w) ≤ decP * (v.amount * x) := by nlinarith
   exact Int.le_of_mul_le_mul_left e3 hd
 
 end DymVerif.Iro
